@@ -51,6 +51,8 @@ class Problem:
             return ("RATES\n A\n -start\n 10 rate = PARM(1)\n 20 moles = rate * TIME\n" + cbk("A") + " 30 SAVE moles\n -end\n")
         if self.kind == "first":
             return ("RATES\n A\n -start\n 10 rate = PARM(1) * M\n 20 moles = rate * TIME\n" + cbk("A") + " 30 SAVE moles\n -end\n")
+        if self.kind == "tquad":
+            return ("RATES\n A\n -start\n 10 rate = PARM(1) * TOTAL_TIME\n 20 moles = rate * TIME\n" + cbk("A") + " 30 SAVE moles\n -end\n")
         if self.kind == "chainsol":
             return ("RATES\n A\n -start\n 10 rate = PARM(1) * M\n 20 moles = rate * TIME\n" + cbk("A") + " 30 SAVE moles\n -end\n"
                     " C\n -start\n 10 rate = -PARM(1) * TOT(\"Xb\") * TOT(\"water\")\n 20 moles = rate * TIME\n" + cbk("C") +
@@ -67,6 +69,8 @@ class Problem:
         p = self.p
         if self.kind in ("zero", "first"):
             return [("A", "Xa 1", p["m0"], [p["k"]])]
+        if self.kind == "tquad":
+            return [("A", "Xa 1", p["m0"], [p["a"]])]
         if self.kind == "chainsol":
             # A --k1--> Xb(aq) --k2--> C   (A releases Xb; C takes Xb out of solution)
             return [("A", "Xb 1", p["a0"], [p["k1"]]), ("C", "Xb 1", p["c0"], [p["k2"]])]
@@ -81,7 +85,7 @@ class Problem:
         p = self.p
         if self.kind == "zero":
             return {"Xa": p.get("xa0", 0.0), "Xb": 0.0, "Xc": 0.0}
-        if self.kind == "first":
+        if self.kind in ("first", "tquad"):
             return {"Xa": 0.0, "Xb": 0.0, "Xc": 0.0}
         if self.kind == "chainsol":
             return {"Xa": 0.0, "Xb": p["x0"], "Xc": 0.0}
@@ -99,6 +103,8 @@ class Problem:
             return {"A": max(m, 0.0)}
         if self.kind == "first":
             return {"A": p["m0"] * math.exp(-p["k"] * t)}
+        if self.kind == "tquad":
+            return {"A": p["m0"] - p["a"] * t * t / 2}
         if self.kind in ("chainsol", "chainkin"):
             k1, k2 = p["k1"], p["k2"]
             a0 = p["a0"]
@@ -124,8 +130,11 @@ class Problem:
 
 def gen_problem(rng, T):
     """a closed-form problem whose time scales are commensurate with T"""
-    kind = rng.choice(["zero", "first", "first", "chainsol", "chainkin"])
+    kind = rng.choice(["zero", "first", "first", "chainsol", "chainkin", "tquad"])
     m0 = 10 ** rng.uniform(-4, -1)
+    if kind == "tquad":
+        # zero order in the amounts, coefficient linear in time: m(t) = m0 - a t^2 / 2 (Runge-Kutta only, see gen_closed)
+        return Problem(kind, {"m0": m0, "a": rng.choice([0.2, 1.0, 1.6]) * m0 / (T * T)})
     if kind == "zero":
         # k*T from 0.05 m0 to 1.6 m0 (beyond 1: the reactant is exhausted inside the interval); sometimes negative (growth)
         r = rng.choice([0.05, 0.3, 0.7, 0.95, 1.2, 1.6, -0.5])
@@ -273,4 +282,78 @@ def poly_input(spec):
     items = ["STEP_NO"] + [f'KIN("{POLY_NAMES[j]}")' for j in range(n)]
     txt.append("SELECTED_OUTPUT 1\n -reset false\nUSER_PUNCH 1\n -headings " + " ".join(heads) + "\n 10 PUNCH " +
                ", ".join(items) + "\nEND\n")
+    return "".join(txt)
+
+
+# ----------------------------------------------------------------------------------------------------------------
+# kinetics inside ADVECTION / TRANSPORT time steps
+# ----------------------------------------------------------------------------------------------------------------
+def gen_flow(rng):
+    """a solid kinetic reactant (rate depends on its own amount and on TOTAL_TIME only) in every cell of a column; whatever the
+    flow does to the solution, after n shifts of -time_step dt each cell holds the closed-form amount at n*dt"""
+    mode = rng.choice(["advection", "transport", "transport"])
+    cells = rng.choice([1, 2, 3, 4])
+    shifts = rng.choice([1, 2, 3, 5])
+    dt = 10 ** rng.uniform(0, 4)
+    T = dt * shifts
+    m0 = 10 ** rng.uniform(-4, -2)
+    kind = rng.choice(["zero", "first", "first", "tquad"])
+    if kind == "zero":
+        p = {"m0": m0, "k": rng.choice([0.1, 0.5, 0.9]) * m0 / T}
+    elif kind == "first":
+        p = {"m0": m0, "k": rng.choice([0.2, 1.0, 3.0]) * rng.uniform(0.8, 1.25) / T}
+    else:
+        p = {"m0": m0, "a": rng.choice([0.3, 1.0, 1.6]) * m0 / (T * T)}       # rate = a * TOTAL_TIME
+    integ = gen_integrator(rng)
+    if kind == "tquad":
+        integ = {"cvode": False, "rk": rng.choice([1, 2, 3, 6]), "step_divide": rng.choice([1, 1, 3, 0.01]), "bad_step_max": 500}
+    cfg = {"mode": mode, "cells": cells, "shifts": shifts, "dt": dt, "tol": 10 ** rng.uniform(-10, -7), "integ": integ,
+           "kind": kind, "p": p}
+    if mode == "transport":
+        cfg["flow"] = rng.choice(["forward", "forward", "back", "diffusion_only"])
+        cfg["disp"] = rng.choice([0.0, 0.05, 0.3, 1.0])
+        cfg["bc"] = rng.choice(["flux flux", "constant closed", "closed closed", "flux constant"])
+        cfg["diffc"] = rng.choice([0.0, 1e-9, 3e-9])
+        cfg["stagnant"] = rng.random() < 0.2
+    return cfg
+
+
+def flow_exact(cfg, t):
+    p = cfg["p"]
+    if cfg["kind"] == "zero":
+        return max(p["m0"] - p["k"] * t, 0.0)
+    if cfg["kind"] == "first":
+        return p["m0"] * math.exp(-p["k"] * t)
+    return p["m0"] - p["a"] * t * t / 2
+
+
+def flow_input(cfg):
+    p = cfg["p"]
+    rate = {"zero": "PARM(1)", "first": "PARM(1) * M", "tquad": "PARM(1) * TOTAL_TIME"}[cfg["kind"]]
+    parm = p.get("k", p.get("a"))
+    n = cfg["cells"]
+    stag = cfg.get("stagnant", False)
+    last = n
+    txt = [TRACER_DB, f"SOLUTION 0-{2 * n + 1 if stag else n + 1}\n pH 7 charge\n Na 1\n Cl 1\n -units mol/kgw\n -water 1\n",
+           "RATES\n A\n -start\n 10 rate = " + rate + "\n 20 moles = rate * TIME\n 25 dummy = CALLBACK(TOTAL_TIME, M, \"A\")\n 30 SAVE moles\n -end\n",
+           f"KINETICS 1-{last}\n A\n  -formula Xa 1\n  -m {fmt(p['m0'])}\n  -m0 {fmt(p['m0'])}\n  -parms {fmt(parm)}\n  -tol {fmt(cfg['tol'])}\n"]
+    ig = cfg["integ"]
+    if ig["cvode"]:
+        txt.append(f" -cvode true\n -cvode_steps {ig['cvode_steps']}\n -cvode_order {ig['cvode_order']}\n")
+    else:
+        txt.append(f" -runge_kutta {ig['rk']}\n -step_divide {fmt(ig['step_divide'])}\n")
+    txt.append(f" -bad_step_max {ig['bad_step_max']}\n")
+    txt.append("SELECTED_OUTPUT 1\n -reset false\nUSER_PUNCH 1\n -headings cell total_time m_A Xa\n"
+               " 10 PUNCH CELL_NO, TOTAL_TIME, KIN(\"A\"), TOTMOLE(\"Xa\")\n"
+               "USE solution none\nEND\n")       # no batch reaction with KINETICS 1 before the column calculation (it would be kept)
+    if cfg["mode"] == "advection":
+        txt.append(f"ADVECTION\n -cells {n}\n -shifts {cfg['shifts']}\n -time_step {fmt(cfg['dt'])}\n -punch_cells 1-{n}\n"
+                   f" -punch_frequency 1\n -print_frequency 1000\nEND\n")
+    else:
+        txt.append(f"TRANSPORT\n -cells {n}\n -shifts {cfg['shifts']}\n -time_step {fmt(cfg['dt'])}\n -lengths {n}*1\n"
+                   f" -dispersivities {n}*{fmt(cfg['disp'])}\n -flow_direction {cfg['flow']}\n -boundary_conditions {cfg['bc']}\n"
+                   f" -diffusion_coefficient {fmt(cfg['diffc'])}\n -punch_cells 1-{n}\n -punch_frequency 1\n -print_frequency 1000\n")
+        if stag:
+            txt.append(" -stagnant 1 6.8e-6 0.3 0.1\n")
+        txt.append("END\n")
     return "".join(txt)
